@@ -277,6 +277,23 @@ let pairs = array(6, null); pairs[0] <- array(2, 12); pairs[1] <- array(2, 0); p
 let i = 0;
 while i < 6 do begin let p = pairs[i]; print("gcd(~,~)=~ lcm=~\\n", p[0], p[1], gcd(p[0], p[1]), lcm(p[0], p[1])); i <- i + 1 end
 '''),
+ ('workload:150-shapes-over-three-prototypes', '''
+let tri = object begin function sides() -> 3; function name() -> 30 end; let quad = object begin function sides() -> 4; function name() -> 40 end; let pent = object begin function sides() -> 5; function name() -> 50 end;
+let protos = array(3, null); protos[0] <- tri; protos[1] <- quad; protos[2] <- pent;
+let shapes = array(150, null); let i = 0;
+while i < 150 do begin shapes[i] <- object extends protos[i % 3] begin let id = i end; i <- i + 1 end;
+let total = 0; let names = 0; i <- 0;
+while i < 150 do begin total <- total + shapes[i].sides(); i <- i + 1 end;
+i <- 149;
+while i >= 0 do begin names <- names + shapes[i].name(); i <- i - 7 end;
+print("~ ~ ~ ~\\n", total, names, shapes[133].sides(), shapes[5].sides())
+'''),
+ ('workload:300-allocations-then-dispatch', '''
+let keep = array(3, null); let i = 0; let protos = array(3, null);
+protos[0] <- object begin function who() -> 1 end; protos[1] <- object begin function who() -> 2 end; protos[2] <- object begin function who() -> 3 end;
+while i < 265 do begin let o = object extends protos[i % 3] begin end; if i % 128 == 5 then keep[i / 128] <- o; i <- i + 1 end;
+print("~ ~ ~\\n", keep[0].who(), keep[1].who(), keep[2].who())
+'''),
  ('workload:queue-of-closures-as-objects', '''
 function task(id, cost) -> object begin let id = id; let left = cost; function step() -> begin this.left <- this.left - 1; this.left == 0 end end;
 let q = array(5, null); let i = 0;
